@@ -38,26 +38,31 @@ theorem multisig_length_le (m : Nat) (keys : List Bytes) (hk : ∀ k ∈ keys, k
 
 /-! ### the signature check of the library model is ECDSA over the reference digest -/
 
-/-- `RawSignatureHash` as modelled (C03) returns the reference digest, so the concrete signature
-    check is `ecdsaCheck` on `Spec.Sighash.legacySighash` — for every script code that tokenises and
-    every transaction in wire range -/
-theorem realSigCheck_eq (tx : Tx) (i : Nat) (body key sc : Bytes) (ht : Nat) (hp : parses sc)
+/-- `RawSignatureHash` as modelled (C03) returns the reference digest — for every script code that
+    tokenises, every transaction in wire range and every index ≥ 0 -/
+theorem real_sigHash (tx : Tx) (i : Nat) (sc : Bytes) (ht : Nat) (hp : parses sc)
     (hsc : sc.length < 2 ^ 64) (hwf : FieldsWF tx) (hht : ht < 256) :
-    realSigCheck tx i body key sc ht = ecdsaCheck body key (legacySighash sc tx i ht).1 := by
-  unfold realSigCheck
-  rw [SighashProofs.raw_eq sc tx i ht hp hsc hwf (SighashProofs.htRel_cast ht) (SighashProofs.packI_ht (by omega))]
+    (realCtx tx (i : Int)).sigHash sc ht = .ok (legacySighash sc tx i ht).1 := by
+  show (rawSignatureHashInt sc tx (i : Int) (ht : Int)).map (·.1) = _
+  unfold rawSignatureHashInt
+  rw [if_pos (Int.natCast_nonneg i), Int.toNat_natCast,
+    SighashProofs.raw_eq sc tx i ht hp hsc hwf (SighashProofs.htRel_cast ht) (SighashProofs.packI_ht (by omega))]
+  rfl
 
-theorem realCtx_env (tx : Tx) (i : Nat) : (realCtx tx (i : Int)).env = realEnv tx i := by
-  simp [realCtx]
+theorem realCtx_env (tx : Tx) (i : Nat) : (realCtx tx (i : Int)).env = realEnv tx (i : Int) := rfl
 
-theorem realCtx_inIdx (tx : Tx) (i : Nat) : 0 ≤ (realCtx tx (i : Int)).inIdx := Int.natCast_nonneg i
+/-- (was `0 ≤ inIdx` before the C06/C07 audit round 1) for a transaction in wire range and an index ≥ 0
+    the modelled `RawSignatureHash` raises nothing on script codes that tokenise -/
+theorem realCtx_inIdx (tx : Tx) (i : Nat) (hwf : FieldsWF tx) : (realCtx tx (i : Int)).SigTotal :=
+  ⟨fun sc ht hlen hht hp =>
+    ⟨_, real_sigHash tx i sc ht (parses_of_rawIter hp) (by unfold MAX_SCRIPT_SIZE at hlen; omega) hwf hht⟩⟩
 
 theorem real_sigCheck (tx : Tx) (i : Nat) (body key sc : Bytes) (ht : Nat) (hp : parses sc)
     (hsc : sc.length < 2 ^ 64) (hwf : FieldsWF tx) (hht : ht < 256) :
     (realCtx tx (i : Int)).env.sigCheck body key sc ht =
       (txEnv realHashes ecdsaCheck tx i).sigCheck body key sc ht := by
-  rw [realCtx_env]
-  exact realSigCheck_eq tx i body key sc ht hp hsc hwf hht
+  simp only [Ctx.env, real_sigHash tx i sc ht hp hsc hwf hht]
+  rfl
 
 theorem real_chkSig (tx : Tx) (i : Nat) (sc sig key : Bytes) (hp : parses sc) (hsc : sc.length < 2 ^ 64)
     (hwf : FieldsWF tx) :
